@@ -685,7 +685,8 @@ func c10Gen(o *out, r *rng, tier string) {
 	fails := []st{{5, "not found", "", false}, {3, "bad % argument\u00e9", "why", true}, {13, "", "", false}, {2, "boom", "", true}, {14, "try later", "d2", true},
 		{16, "who", "", false}, {7, "denied", "x", true}, {1, "cancelled by the backend", "", false}, {4, "backend deadline", "", false}, {10, "aborted", "", false}}
 	okst := st{}
-	mds := []map[string][]string{nil, {"x-a": {"v1", "v2"}}, {"x-b": {"one"}, "x-c-bin": {string([]byte{0, 1, 0xff, 0x80})}}, {"x-empty": {""}}}
+	mds := []map[string][]string{nil, {"x-a": {"v1", "v2"}}, {"x-b": {"one"}, "x-c-bin": {string([]byte{0, 1, 0xff, 0x80})}}, {"x-empty": {""}},
+		{"x-t-bin": {"\x00\x01", "\xfe"}, "x-s-bin": {"zz\x80"}, "x-u-bin": {"third"}, "x-p": {"plain"}}}
 	mdsHTTP := []map[string][]string{nil, {"x-a": {"v1", "v2"}}, {"x-b": {"one"}}}
 	limitHang := 2
 	if tier != "quick" {
